@@ -36,11 +36,11 @@ Proof.
   - f_equal. f_equal.
     destruct (matchb tol b e); [injection H as <-; reflexivity|].
     destruct (find _ (map snd t)); [injection H as <-; reflexivity|].
-    destruct (matchb tol e (tt + Z.abs b)); [injection H as <-; reflexivity|].
+    destruct (_ && matchb tol e (tt + Z.abs b)); [injection H as <-; reflexivity|].
     destruct (lo_clean st); [|discriminate]. destruct (find _ (map snd t)); [injection H as <-; reflexivity|discriminate].
   - destruct (matchb tol b e); [injection H as <-; exists []; cbn; rewrite app_nil_r; reflexivity|].
     destruct (find _ (map snd t)) as [s|]; [injection H as <-; exists [s]; reflexivity|].
-    destruct (matchb tol e (tt + Z.abs b)); [injection H as <-; exists []; cbn; rewrite app_nil_r; reflexivity|].
+    destruct (_ && matchb tol e (tt + Z.abs b)); [injection H as <-; exists []; cbn; rewrite app_nil_r; reflexivity|].
     destruct (lo_clean st); [|discriminate]. destruct (find _ (map snd t)) as [s|]; [injection H as <-; exists [s]; reflexivity|discriminate].
 Qed.
 
@@ -50,7 +50,7 @@ Proof.
   unfold lead_out_step. destruct (py_pop (lo_code st) _) as [[b code']|]; [|right; eexists; reflexivity].
   destruct (matchb tol b e); [left; eexists; reflexivity|].
   destruct (find _ (map snd t)); [left; eexists; reflexivity|].
-  destruct (matchb tol e (tt + Z.abs b)); [left; eexists; reflexivity|].
+  destruct (_ && matchb tol e (tt + Z.abs b)); [left; eexists; reflexivity|].
   destruct (lo_clean st); [|right; eexists; reflexivity].
   destruct (find _ (map snd t)); [left|right]; eexists; reflexivity.
 Qed.
